@@ -3,7 +3,7 @@
 
     lex <mode: file|expr> <hex input>
       -> `OK Typ:pos:hexval;Typ:pos:hexval;…`   every item sent on the channel, in order
-                                                 (Error items: `Error:pos:-`, the text is not modelled)
+                                                 (Error items: `Error:pos:<class>` — `-` or the one-byte class of Model/Lexer.lean `clsTag`…; the text is not modelled)
        | `PANIC`    the lexer goroutine dies with a runtime panic
        | `FUELOUT`  the model's budget of state transitions ran out (never observed; see Props/C05)
 -/
@@ -15,7 +15,7 @@ open SoyVerif SoyVerif.Ops SoyVerif.Model
 
 def showItem (it : Item) : String :=
   it.typ.name ++ ":" ++ toString it.pos ++ ":" ++
-    (if it.typ = .tError then "-" else Bytes.toHexWire it.val)
+    Bytes.toHexWire it.val  -- for Error items: the class byte (`-` = no class), not the message
 
 def showResult : Lex.LexResult → String
   | .items is => "OK " ++ ";".intercalate (is.map showItem)
